@@ -573,7 +573,7 @@ pub fn c20(args: &Args) -> i32 {
     if args.replay.is_some() {
         return replay(args, "C20");
     }
-    let run = Run::new(args, "model_checking", 110.0, 2400.0);
+    let run = Run::new(args, "model_checking", 110.0, 1500.0);
     let bound = if run.quick() { 2 } else { 3 };
     run.set_rule("interleavings of real threads on one real StorageEngine at the storage-engine and persist-layer scheduling points: a writer issuing a two-tuple batch insert / batch delete / rule registration (then reading its own write) against 1-2 readers issuing snapshot queries, two writers and a reader, a batch insert against a batch delete of overlapping tuples; ALL schedules with at most B preemptions. Oracle: the observed query results and acknowledgements must be linearizable against a sequential set model (brute force over all orders consistent with real time and program order) - in particular no query sees one tuple of a batch without the other, and a thread sees its own acknowledged write; the final served state, the state after a clean restart, and the state recovered from the directory copied at every scheduling step must be explained the same way. non-trivial = schedules with at least one context switch; states = scheduling points visited");
     run.assume("sequentially consistent scheduling at the hook sites; code between two sites is atomic");
